@@ -428,7 +428,12 @@ def _transform(case, precision):
     if name == "downsample":
         if min(gpts) < 9:
             return _materialize([waves().intensity()])
-        return _materialize([waves().downsample(max_angle="valid"), waves().downsample(max_angle="cutoff", normalization="amplitude")])
+        w = waves()
+        first = w.downsample(max_angle="valid")
+        # the waves that were down-sampled are used again afterwards (measured, down-sampled a second time): whatever the
+        # backend did with its buffers, they still hold the same wave function
+        return _materialize([first, waves().downsample(max_angle="cutoff", normalization="amplitude"), w.intensity(),
+                             w.downsample(max_angle="cutoff")])
     if name == "apply_ctf":
         return _materialize([waves().apply_ctf(defocus=float(rng.uniform(-200, 200)), Cs=float(rng.uniform(-1e5, 1e5)),
                                                semiangle_cutoff=float(rng.uniform(5, 30)), soft=False)])
